@@ -123,15 +123,16 @@ func VerifHarness_C40_paths() {
 		IPSetConfigV4: ipsets.NewIPVersionConfig(ipsets.IPFamilyV4, "cali", nil, nil),
 		IPSetConfigV6: ipsets.NewIPVersionConfig(ipsets.IPFamilyV6, "cali", nil, nil),
 		MarkAccept:    0x80, MarkPass: 0x100, MarkScratch0: 0x200, MarkScratch1: 0x400, MarkDrop: 0x800, MarkEndpoint: 0xff000,
-		WorkloadIfacePrefixes:  []string{"cali"},
-		IPIPEnabled:            true,
-		VXLANEnabled:           true,
-		VXLANPort:              4789,
-		FilterAllowAction:      "ACCEPT",
-		MangleAllowAction:      "ACCEPT",
-		FilterDenyAction:       "DROP",
-		EndpointToHostAction:   e2h,
-		FailsafeInboundHostPorts: []config.ProtoPort{{Protocol: "tcp", Port: 22}, {Protocol: "udp", Port: 68, Net: "10.0.0.0/8"}},
+		WorkloadIfacePrefixes: []string{"cali"},
+		IPIPEnabled:           true,
+		VXLANEnabled:          true,
+		VXLANPort:             4789,
+		FilterAllowAction:     "ACCEPT",
+		MangleAllowAction:     "ACCEPT",
+		FilterDenyAction:      "DROP",
+		EndpointToHostAction:  e2h,
+		FailsafeInboundHostPorts: []config.ProtoPort{{Protocol: "tcp", Port: 22}, {Protocol: "udp", Port: 68, Net: "10.0.0.0/8"},
+			{Protocol: "udp", Port: 68, Net: "192.168.0.0/16"}, {Protocol: "udp", Port: 68, Net: "fd00::/8"}},
 		FailsafeOutboundHostPorts: []config.ProtoPort{{Protocol: "tcp", Port: 2379}, {Protocol: "udp", Port: 53}},
 	}
 	rr := NewRenderer(cfg, false).(*DefaultRuleRenderer)
@@ -179,7 +180,7 @@ func VerifHarness_C40_paths() {
 	case 0: // INPUT from the host endpoint's interface
 		p.inIface = "eth0"
 		v := v40Eval(cm[ChainFilterInput], p, sets, cm, dstLocal, 0)
-		failsafe := (p.proto == 6 && p.dport == 22) || (p.proto == 17 && p.dport == 68 && p.src>>24 == 10)
+		failsafe := (p.proto == 6 && p.dport == 22) || (p.proto == 17 && p.dport == 68 && (p.src>>24 == 10 || p.src>>16 == 192<<8|168))
 		if failsafe && !tunnel && p.ctNew {
 			verifAssert("input/failsafe-port-accepted-despite-deny-all-policy", v == vAccept)
 		}
@@ -254,7 +255,7 @@ func VerifHarness_C40_paths() {
 		}
 		p.inIface = "eth0"
 		v := v40Eval(tm[EndpointChainName(HostFromEndpointPfx, "eth0", iptables.MaxChainNameLength)], p, sets, tm, dstLocal, 0)
-		failsafe := (p.proto == 6 && p.dport == 22) || (p.proto == 17 && p.dport == 68 && p.src>>24 == 10)
+		failsafe := (p.proto == 6 && p.dport == 22) || (p.proto == 17 && p.dport == 68 && (p.src>>24 == 10 || p.src>>16 == 192<<8|168))
 		if failsafe {
 			verifAssert("untracked-and-pre-dnat/failsafe-port-accepted-despite-deny-all-policy", v == vAccept)
 		}
